@@ -280,13 +280,16 @@ class Runner:
         W = min(NPROC, max(1, total // 50)) if total < 800 else NPROC
         per = (total + W - 1) // W
         procs = []
+        extra_env = t.spec['worker_env'](t.wdir) if t.spec.get('worker_env') else {}
         for w in range(W):
             sseed = (self.seed * 1000003 + w * 7919 + 1) & 0x7FFFFFFFFFFFFFFF
             cur = os.path.join(t.wdir, 'w%d.cur' % w)
             st = os.path.join(t.wdir, 'w%d.json' % w)
             lg = open(os.path.join(t.wdir, 'w%d.log' % w), 'wb')
             cmd = [t.pr] + t.args + ['--gen', str(per), '--seed', str(sseed), '--maxlen', str(t.maxlen), '--cur', cur, '--budget', str(t.budget)]
-            p = subprocess.Popen(cmd, env=env_for({'VERIF_STATS': st}), stdout=lg, stderr=subprocess.STDOUT)
+            wenv = {'VERIF_STATS': st}
+            wenv.update(extra_env)
+            p = subprocess.Popen(cmd, env=env_for(wenv), stdout=lg, stderr=subprocess.STDOUT)
             procs.append((w, p, cur, st, lg, sseed, per))
         limit = t.spec.get('wall_limit', 1500 if self.tier == 'quick' else 7200)
         tstart = time.time()
@@ -419,6 +422,8 @@ class Runner:
             tg = time.time()
             agg = self.gen_tier(t, n)
             hashes = agg.pop('_hashes')
+            if t.spec.get('post'):
+                t.spec['post'](self, t, agg)
             agg['wall_s'] = round(time.time() - tg, 1)
             log('[%s] %s: %d cases, %d non-trivial (%d distinct) in %.1fs' % (self.id, t.name, agg['evaluations'], agg['nontrivial'], agg['distinct_nontrivial'], agg['wall_s']))
             if self.tier == 'thorough' and t.spec.get('fuzz', True) and not self.violations:
@@ -499,13 +504,20 @@ class Runner:
 def replay_one(prop_id, cfg, path):
     base = os.path.basename(path)
     tname = base.split('__')[0]
-    specs = [s for s in cfg['targets'] if s['name'] == tname]
+    specs = [s for s in cfg['targets'] if s['name'] == tname or tname in s.get('replay_aliases', [])]
     if not specs:
         log('cannot tell which target %s belongs to (expected <target>__*.bin)' % path)
         return 2
     t = Target(prop_id, specs[0])
     with B.Lock():
         t.build(('pr',))
+    if specs[0].get('replay_hook') and specs[0]['replay_hook'](path) is not None:
+        rc = specs[0]['replay_hook'](path)
+        if rc != 0:
+            log('VIOLATION property=%s replay=%s' % (prop_id, path))
+            return 1
+        log('replay passed')
+        return 0
     if path.endswith('.genrun'):
         j = json.load(open(path))
         cmd = [t.pr] + t.args + ['--gen', str(j['n']), '--seed', str(j['seed']), '--maxlen', str(j['maxlen']), '--budget', str(t.budget)]
